@@ -45,7 +45,9 @@ TDealloc == IsEvent("Dealloc") /\ Ev.id \in heap /\ heap' = heap \ {Ev.id} /\ Sa
 TFopen   == IsEvent("Fopen") /\ files' = files \cup {Ev.id} /\ Same /\ UNCHANGED heap
 TFclose  == IsEvent("Fclose") /\ Ev.id \in files /\ files' = files \ {Ev.id} /\ Same /\ UNCHANGED heap
 TFail    == IsEvent("AllocFail") /\ Same /\ UNCHANGED <<heap, files>>
-TNew     == IsEvent("New") /\ Same /\ UNCHANGED <<heap, files>>
+\* (the kind of stream the driver says it opened must be one there is: a name the driver did not recognise falls through to a default)
+TNew     == IsEvent("New") /\ Chk("stream kind", ~Has("stream") \/ Ev.stream \in {"path", "FILE", "pipe", "drip", "cb", "cbns", "cbk"})
+            /\ Same /\ UNCHANGED <<heap, files>>
 
 AllocOk == IF Has("faults") THEN Ev.faults = 0 ELSE TRUE
 IdOf(i) == IF i = 0 THEN "" ELSE arc'[i].id
